@@ -42,7 +42,7 @@ def guards(chk, ctx, runs):
             c = t.left.args[0].id
             if c not in it.containers or not isinstance(t.ops[0], (ast.GtE, ast.Gt)):
                 continue
-            rhs = attr_lin(t.comparators[0])
+            rhs = attr_lin(subst_defs(t.comparators[0], single_defs(run_.fn)))
             cons = f"{run_.construct}#capacity-guard[{k}]"
             k += 1
             if rhs is None:
@@ -301,7 +301,7 @@ def run(chk, ctx):
     shared.rule_units(chk, "C03.UNITS", runs, ctx.repo)
     # unit accounting (capacity - depth) is only right if the depth is the number of stored checkpoints
     shared.rule_track(chk, "C03.PAIR", [r for r in runs if r.owner != shared.CONVERTER])
-    shared.rule_config(chk, "C03.CONFIG", ctx.repo)
+    shared.rule_config(chk, "C03.CONFIG", ctx, mode="le")
     guards(chk, ctx, runs)
     slice_rules(chk, ctx)
     kind_rules(chk, runs)
